@@ -112,7 +112,34 @@ def plan(tier, seed):
                     c3 = dict(c2)
                     c3['All-in Vertical Drilling Costs'] = '1846'
                     P.append({'fam': fam, 'changes': c3})
+    # closed-loop (SBT) well field: vertical sections + laterals + junction legs, every correlation, cased / uncased, section counts
+    for fam in F.sbt_grid(econs=(1, 2, 3) if tier == 'thorough' else (3,), pairs=((1, 2), (2, 9), (31, 1))):
+        P.append({'fam': fam, 'changes': {}, 'base': True})
+        al = alphabets(fam)
+        for ch in e1.deviations(al, 1):
+            P.append({'fam': fam, 'changes': ch})
+        for ch in SBT_STRUCT:
+            P.append({'fam': fam, 'changes': dict(ch)})
+        if fam['enduse'] == 1:
+            for corr in range(1, 18):
+                for nsec in ('1', '2', '3') if tier == 'thorough' or corr in (3, 10, 5) else ('2',):
+                    for cased in ('False', 'True'):
+                        P.append({'fam': fam, 'changes': {'Well Drilling Cost Correlation': str(corr), 'Number of Multilateral Sections': nsec, 'Multilaterals Cased': cased}})
     return P
+
+
+SBT_STRUCT = [
+    {'Number of Multilateral Sections': None},
+    {'Number of Injection Wells': '0'},
+    {'All-in Nonvertical Drilling Costs': '700'},
+    {'All-in Nonvertical Drilling Costs': '1300', 'Multilaterals Cased': 'True'},
+    {'All-in Vertical Drilling Costs': '1846', 'Well Drilling Cost Correlation': '5'},
+    {'Vertical Section Length': '0.45 kilometer', 'Junction Depth': '0.45 kilometer', 'Lateral Endpoint Depth': '0.55 kilometer', 'Reservoir Depth': '0.45 kilometer', 'Gradient 1': '300'},
+    {'Well Drilling and Completion Capital Cost Adjustment Factor': '2.5'},
+    {'Well Drilling and Completion Capital Cost Adjustment Factor': '2.5', 'Injection Well Drilling and Completion Capital Cost Adjustment Factor': '0.5'},
+    {'Number of Production Wells': '3', 'Number of Injection Wells': '2'},
+    {'Lateral Spacing': '150', 'Number of Multilateral Sections': '4'},
+]
 
 
 def run(tier, seed, budget=None):
